@@ -1,19 +1,46 @@
 #!/usr/bin/env python3
-"""tools/status_table.py -- markdown table of the per-property status from MANIFEST.json, the evidence files,
-the must-fail corpus and the seeded changes (pasted into DESIGN.md section 11)."""
-import json, glob, os
-m = json.load(open('/verif/MANIFEST.json'))
-print("| property | functions under contract | obligations (quick) | discharged | solver s | wall s | must-fail mutants | seeded changes (detected/confirmed) |")
-print("|---|---|---|---|---|---|---|---|")
-for c in m['checks']:
-    pid = c['property_id']
-    ev = '/verif/evidence/%s.json' % pid
-    if not os.path.exists(ev):
-        continue
-    d = json.load(open(ev)); cov = d['coverage']
-    muts = glob.glob('/verif/mutants/%s/*.patch' % pid)
-    seeds = [json.load(open(f)) for f in glob.glob('/verif/seeded/%s_*/meta.json' % pid)]
-    det = sum(1 for s in seeds if s.get('detected'))
-    print("| %s | %d | %d | %d | %.0f | %.0f | %d | %d/%d |" % (pid, len(cov['functions_under_contract']), cov['obligations'], cov['discharged'], cov['solver_time_s'], d['wall_s'], len(muts), det, len(seeds)))
-print()
-print("not_applicable: " + ", ".join(n['property_id'] for n in m['not_applicable']))
+"""tools/status_table.py [status|seeded] -- markdown tables for DESIGN.md section 11, produced from MANIFEST.json,
+the evidence files, the must-fail corpus and the seeded changes."""
+import glob
+import json
+import os
+import sys
+
+
+def status_table():
+    m = json.load(open('/verif/MANIFEST.json'))
+    print("| property | functions under contract | obligations (quick) | discharged | solver s | wall s | must-fail mutants | seeded changes (detected/confirmed) |")
+    print("|---|---|---|---|---|---|---|---|")
+    for c in m['checks']:
+        pid = c['property_id']
+        ev = '/verif/evidence/%s.json' % pid
+        if not os.path.exists(ev):
+            continue
+        d = json.load(open(ev))
+        cov = d['coverage']
+        muts = glob.glob('/verif/mutants/%s/*.patch' % pid)
+        seeds = [json.load(open(f)) for f in glob.glob('/verif/seeded/%s_*/meta.json' % pid)]
+        det = sum(1 for s in seeds if s.get('detected'))
+        print("| %s | %d | %d | %d | %.0f | %.0f | %d | %d/%d |" % (
+            pid, len(cov['functions_under_contract']), cov['obligations'], cov['discharged'], cov['solver_time_s'], d['wall_s'], len(muts), det, len(seeds)))
+    print()
+    print("not_applicable: " + ", ".join(n['property_id'] for n in m['not_applicable']))
+
+
+def seeded_table():
+    print("| property | change | needs | detected | by obligation(s) |")
+    print("|---|---|---|---|---|")
+    for f in sorted(glob.glob('/verif/seeded/*/meta.json')):
+        s = json.load(open(f))
+        by = s.get('detected_by', [])
+        det = ", ".join(d.split('.')[-1] for d in by[:3])
+        if len(by) > 3:
+            det += ", ..."
+        print("| %s | %s | %s | %s | %s |" % (s['property'], s['name'], s['needs_to_manifest'], "yes" if s.get('detected') else "NO", det))
+
+
+if __name__ == '__main__':
+    if len(sys.argv) > 1 and sys.argv[1] == 'seeded':
+        seeded_table()
+    else:
+        status_table()
